@@ -2,7 +2,9 @@
 
 // Package wire is the correspondence driver for property C08 (wire codecs).
 // Every op is self-contained (all inputs are in the op text), except `reenc`,
-// which re-encodes the Go frame object produced by the last successful `dec`.
+// which re-encodes the Go frame object produced by the last successful `dec`, and
+// parse ops whose exponent is `=`: they run on the case's FrameParser of that flag
+// set with the ACK delay exponent it holds (last `setexp` / numeric exponent; 0 when fresh).
 package wire
 
 import (
@@ -399,7 +401,11 @@ func lvlOf(s string) protocol.EncryptionLevel {
 // decodeOne mirrors connection.handleFrames for a single frame.
 func (rn *runner) decodeOne(lvl, flags, exp string, data []byte) (wire.Frame, int, string) {
 	p := rn.parser(flags)
-	p.SetAckDelayExponent(uint8(u64(exp)))
+	// a numeric exponent: the peer's transport parameters arrive right before this parse; "=": the parser
+	// keeps whatever it holds (the connection calls SetAckDelayExponent once, then parses for its whole life)
+	if exp != "=" {
+		p.SetAckDelayExponent(uint8(u64(exp)))
+	}
 	encLevel := lvlOf(lvl)
 	errText := func(err error) string {
 		if err == io.EOF {
@@ -709,6 +715,9 @@ func (rn *runner) Exec(op string) string {
 			rn.push("dec A 111 3 " + h)
 		}
 		return res
+	case "setexp":
+		rn.parser(arg(1)).SetAckDelayExponent(uint8(u64(arg(2))))
+		return "ok"
 	case "dec":
 		data := unhx(arg(4))
 		f, n, e := rn.decodeOne(arg(1), arg(2), arg(3), data)
